@@ -94,6 +94,7 @@ type c13world struct {
 	nextVer   uint64
 	syncs     int
 	restarted bool // the current standby incarnation is not the first
+	gap       bool // a full-sync response was produced and the stream is not attached yet
 }
 
 func c13Gen(r *sim.Rand, tier string) *sim.Case {
@@ -292,6 +293,9 @@ func (w *c13world) checkStream(id int, final bool) {
 			A = append(A, a.c13mut)
 		}
 	}
+	if len(A) > 0 {
+		c.S.Probe("stream_with_applied_changes_checked")
+	}
 	lo, hi := len(w.pushes), len(w.pushes)-1
 	for i, p := range w.pushes {
 		if p.conn == id {
@@ -407,6 +411,7 @@ func c13Run(c *sim.Ctx) {
 		case c13Stream:
 			if cn.status == http.StatusOK {
 				w.curStream, w.curConn = cn.id, cn
+				w.gap = false
 				c.OpsDone++
 				c.S.Probe("stream_connected")
 				// a delete that happened before this attach can no longer reach the standby by stream
@@ -417,6 +422,16 @@ func c13Run(c *sim.Ctx) {
 		if cn.path == c13Stream && cn == w.curConn {
 			w.curStream, w.curConn = -1, nil
 			w.checkStream(cn.id, false)
+		}
+	}
+	n.OnServe = func(cn *vhConn, req *http.Request) {
+		if cn.path == c13Sess && cn.cliNode == w.sbNode {
+			w.gap = true // from the snapshot being taken ...
+		}
+	}
+	n.OnFailed = func(from string, req *http.Request, err error) {
+		if from == c13Standby {
+			w.gap = false // ... until the attempt is abandoned or the stream attaches
 		}
 	}
 	w.startStandby()
@@ -443,6 +458,11 @@ func c13Run(c *sim.Ctx) {
 		conn := -1
 		if w.streamUp() {
 			conn = w.curStream
+			c.S.Probe("push_while_connected")
+		} else if w.lastSess != nil && w.curConn == nil && !w.lastSess.cliNode.Dead() && w.gap {
+			c.S.Probe("push_between_full_sync_and_attach")
+		} else {
+			c.S.Probe("push_while_disconnected")
 		}
 		why := ""
 		if kind == "del" {
@@ -555,8 +575,8 @@ func init() {
 			"net/http.Client (timeouts, body wrappers), http.ServeMux routing, encoding/json"},
 		Stub:         []string{"TCP/HTTP transport and server (scn.vhNet runs the real handlers in scheduler tasks; no sockets, no net/http server)"},
 		Rule:         "cases: 6-32 add/update/delete/sleep ops over <=4 session ids on the active with stream cuts (between and inside flushes), lost or late full-sync/stream responses, partition (stall or reset) and heal, standby crash+restart, then a fault-free quiet period of 2*(back-off max + request timeout) + heartbeat; non-trivial = >=3 completed operations and (a fault fired or >2 context switches); distinct = distinct (case hash, schedule fingerprint)",
-		QuickRuns:    3000,
-		ThoroughRuns: 200000,
+		QuickRuns:    8000,
+		ThoroughRuns: 300000,
 		Assumptions: []string{"a full synchronisation is complete when performFullSync has returned nil, observed as the standby issuing its stream request",
 			"a change counts as pushed while the stream is connected when, at the return of PushChange, the stream response had been handed to the standby and the connection was neither broken nor closed; changes pushed while connected may be lost only as a suffix cut off by a later disconnect",
 			"session version = SessionState.BytesIn (unique per mutation)", "a restarted standby starts with an empty in-memory store, as cmd/bng does"},
